@@ -78,6 +78,17 @@ fn main() {
             if ey != em { Some(format!("11mo rounded to 5-month increments (Expand): largest=month gives {m:?} (-> {em}), largest=year gives {y:?} (-> {ey})")) } else { None }
         });
     }
+    if on("F28") {
+        run("F28", || {
+            let tz = TimeZone::get("Africa/Ndjamena").ok()?;
+            // 1912-01-01T00:00:00 LMT (+01:00:12) the clocks went back 12 s: the civil second 23:59:59 occurs twice
+            let t1: Timestamp = "1911-12-31T22:59:47Z".parse().ok()?;
+            let t2 = Timestamp::from_second(t1.as_second() + 12).ok()?;
+            let (z1, z2) = (Zoned::new(t1, tz.clone()), Zoned::new(t2, tz.clone()));
+            let (s1, s2) = (z1.to_string(), z2.to_string());
+            if s1 == s2 && z1 != z2 { Some(format!("two instants 12 s apart both print {s1}")) } else { None }
+        });
+    }
     if on("F8") {
         run("F8", || {
             let tz = TimeZone::posix("EST5EDT,0/0,J365/25").ok()?;
